@@ -2,12 +2,12 @@
 from props import matcher_common as mc
 
 NAMESPACE = 'C07'
-LEAN_TARGETS = ['MxV.Props.C07']
-THEOREMS = ['C07_reject_needed_flat', 'C07_reject_needed_rootChoice', 'C07_complete_rootChoice', 'templates_min_le_max', 'C07_complete_flat']
+LEAN_TARGETS = ['MxV.Props.C07', 'MxV.Props.Slotted']
+THEOREMS = ['C07_reject_needed_flat', 'C07_reject_needed_rootChoice', 'C07_complete_rootChoice', 'templates_min_le_max', 'C07_complete_flat', 'Slotted.C07_complete_slotted', 'Slotted.C07_reject_needed_slotted']
 TRUSTED_BASE = ['Lean 4.33.0 kernel', 'axioms: propext, Quot.sound, Classical.choice only (audited per theorem)',
                 'translator extract/*.py (templates regenerated every run)',
                 'correspondence harness (real library vs Mfull on all 94 types, vs Msimple on the 68 Tame types)']
-ASSUMPTIONS = ['theorems are about Msimple (Tame types: 61 Flat + 7 RootChoice); the tie to the code is the correspondence run of this check', 'Wild types (26): no theorem; behaviour pinned by the Mfull correspondence and the open findings']
+ASSUMPTIONS = ['theorems are about Msimple (68 Tame types) and Mslot (78 Slotted types, a superset); the tie to the code is the correspondence run of this check', 'the remaining 16 content models (choices below repeated particles, repeated leaf names): no theorem; behaviour pinned by the Mfull correspondence and the open findings']
 KINDS = ['addonly', 'perm', 'addonly', 'worddel', 'worddup', 'perm', 'addonly', 'word']
 
 
